@@ -236,7 +236,7 @@ def stage_gen_trees(run, kinds, depth, ws=1, sample=0, muts=0, name="gen_trees",
     return os.path.join(d, "cases.ndjson"), g
 
 
-def stage_groups(run, casefile, trace_every=0, name="parse_groups", observe=False, sql=False, json=False):
+def stage_groups(run, casefile, trace_every=0, name="parse_groups", observe=False, sql=False, json=False, prints=False):
     res = os.path.join(run.work, name + ".ndjson")
     n = count_lines(casefile)
     k = NPROC if n >= 4000 else 1
@@ -250,6 +250,8 @@ def stage_groups(run, casefile, trace_every=0, name="parse_groups", observe=Fals
             a.append("-sql")
         if json:
             a.append("-json")
+        if prints:
+            a.append("-print")
         if trace_every:
             t = os.path.join(run.work, "%s_trace_%d.ndjson" % (name, i))
             a += ["-trace", t, "-trace-every", str(trace_every)]
@@ -302,6 +304,12 @@ def stage_judge_trees(run, resfile, prop, casefile, name="judge_trees", keep=Fal
         run.drift.append({"stage": name, "what": "decoded tree differs from ExprJson!RoundTripped for %d cases" % j["drift"]})
     if j.get("render_drift", 0):
         run.drift.append({"stage": name, "what": "SQL text or parameters differ from the driver model Render.tla for %d cases" % j["render_drift"],
+                          "examples": j.get("drift_examples", [])[:3]})
+    if j.get("print_predicted", 0) or j.get("print_drift", 0):
+        run.stages[-1]["printer_model_predicted"] = j.get("print_predicted", 0)
+        run.stages[-1]["printer_model_drift"] = j.get("print_drift", 0)
+    if j.get("print_drift", 0):
+        run.drift.append({"stage": name, "what": "String() / GoString() differ from the printer model Printers.tla for %d cases" % j["print_drift"],
                           "examples": j.get("drift_examples", [])[:3]})
     for vf in vfiles:
         run.add_verdicts(vf, group_replay(prop, casefile))
